@@ -19,6 +19,7 @@
    takes the change first (Go's select may take either; the result of the other order is the cancellation branch). *)
 From Util Require Import Common.Base Common.ListLemmas RefCount.Model RefCount.Proofs RefCount.ProofsC08 RefCount.ProofsC08b RefCount.ProofsC10
   RefCount.ProofsC10a RefCount.ProofsC10b.
+From Util Require Import RefCount.Spec RefCount.ProofsMon RefCount.ProofsMon2 RefCount.ProofsMonThm.
 
 (* while some reference (in particular the one returned to the caller) is in the set before and after a step, that step
    calls a release function only if it invalidates the stored value (SetContext with a different context, released() of
@@ -245,3 +246,27 @@ Example c10_example_access_error :
   let s := run repaired (init false) [ESetCtx 1; EStartCons 2; EConsStep 0; EProceed 0 true; EResReturn 0 1 false 3; EStore 0; EConsStep 0; ERelSect 0] in
   cpcv (getc s 0) = CAccRet 3.
 Proof. vm_compute. reflexivity. Qed.
+
+(* ---- the monitors that are evaluated on the implementation's traces, tied to this model ----
+   For EVERY configuration the codec accepts and EVERY list of harness events: on the observations the model itself produces
+   (eager schedule of Spec.hstep; the run stops at the first event the model does not accept) no monitor clause in [proved]
+   is ever false: clauses 10.1 (not released while held), 10.2 (released callback at most once), 10.3 (fired once after an invalidation, at rest) (and (p, 9): the model's observations always parse).  [mon_only keep] is [Spec.mon] with the reported clauses filtered
+   by [keep]; [proved] is the list below.  So these monitors cannot raise an alarm on an implementation that behaves like the
+   model, and the model satisfies the property in exactly the form the checks evaluate it.
+   NOT covered by this theorem (full statement: the same with [mon] in place of [mon_only proved]): the Access clauses 10.4 - 10.7
+   (value passed = current value; invalidated => callback context cancelled; the callback's result returned only from an unraced
+   invocation, re-invocation at rest; resolver error / Canceled returned as such).  They are tied to the model by the differential
+   check on every trace and by the Access theorems above, not by a proof about the monitors' own bookkeeping. *)
+Theorem c10_model_satisfies_monitors_clauses : forall cfg evs,
+  monitor (mon_only proved) 0 (minit cfg) [] evs (run_obs step_opt (hinit cfg) evs) = [].
+Proof. exact model_satisfies_monitors_clauses. Qed.
+Print Assumptions c10_model_satisfies_monitors_clauses.
+
+Theorem c10_model_run_check_clean_clauses : forall cfg evs,
+  length (run_obs step_opt (hinit cfg) evs) = length evs ->
+  run_check step_opt (mon_only proved) (hinit cfg) (minit cfg) evs (run_obs step_opt (hinit cfg) evs) = [].
+Proof. exact model_run_check_clean_clauses. Qed.
+Print Assumptions c10_model_run_check_clean_clauses.
+
+Example c10_proved_clauses : forallb proved [(10, 1); (10, 2); (10, 3); (10, 9)]%nat = true.
+Proof. reflexivity. Qed.
